@@ -5,7 +5,7 @@ pub mod tls;
 pub mod vclock;
 
 pub use crate::core::{
-    active, buggify, current, event, fail, give_up, join, op_begin, op_end, probe, sched_point, spawn, LocClass, IN_USE_WRITE_BASE, OWNER_ONLY_STORE,
+    active, buggify, current, event, fail, give_up, join, op_begin, op_end, probe, sched_point, spawn, LocClass, IN_USE_WRITE_BASE, OWNER_ONLY_STORE, WRITER_ENTERED, WRITER_LEFT,
 };
 
 /// Reach-probe identifiers used by the hooks in /repo (kept here so both sides agree).
